@@ -4,7 +4,8 @@ StreamsQ == {
   <<Pub(0, 3)>>, <<Suback, Pub(0, 3)>>, <<Pub(1, 4), Pong, Pub(0, 0)>>, <<Pub(2, 2), Pub(1, 1)>>,
   <<Pub(0, 12), Pub(0, 1)>>, <<Pub(0, 13), Pub(0, 1)>>, <<Pub(0, 14), Pub(0, 1)>>,
   <<Pub(1, 11), Pub(0, 2)>>, <<Pub(1, 12), Pong, Pub(0, 2)>>, <<Pub(2, 30), Suback, Pub(0, 2)>>,
-  <<Pub(0, 33), Pub(1, 40), Pub(0, 1)>> }
+  <<Pub(0, 33), Pub(1, 40), Pub(0, 1)>>,
+  <<Pub(2, 3), Dup(3), Pub(0, 1), Pub(0, 2)>>, <<Pub(2, 20), Dup(20), Pub(0, 1), Pub(0, 2)>> }
 StreamsT == StreamsQ \cup {
   <<Pub(2, 9), Pub(2, 10), Pub(2, 11)>>, <<Pub(0, 16), Pub(0, 17), Pong, Pub(1, 0)>>, <<Suback, Pong, Suback, Pub(2, 35), Pub(2, 1)>> }
 ASSUME PrintT(<<"NCASES", Cardinality(AllCases)>>)
